@@ -60,8 +60,17 @@ def thresholds(rep, prog):
             if name == 'validate' or name.startswith('_'):
                 for s_, c, _n in int_cuts(fn):
                     vc.setdefault(s_, set()).add(c)
+        # a wrapper over other formats (be.ssn over be.nn / be.bis) distinguishes what its constituents distinguish
+        nm = set(prog.number_modules())
+        for imp in sorted({x.id for x in ast.walk(m.tree) if isinstance(x, ast.Name)}):
+            r = prog.resolve_name(m, imp)
+            if r and r[0] == 'mod' and r[1] in nm and r[1] != mn:
+                for name, fn in prog.mods[r[1]].funcs.items():
+                    if name == 'validate' or name.startswith('_'):
+                        for s_, c, _n in int_cuts(fn):
+                            vc.setdefault(s_, set()).add(c)
         for name, fn in m.funcs.items():
-            if not (name.startswith('get_') or name == 'info'):
+            if name.startswith('_') or name in ('validate', 'is_valid', 'compact', 'format') or name.startswith('calc_'):
                 continue
             for s_, c, node in int_cuts(fn):
                 if s_ not in vc:
